@@ -299,4 +299,49 @@ Proof.
     pose proof (units_concat c t_b items) as Hcat. unfold advance.
     destruct (units c t_b items) as [|b0 rest] eqn:Hu;
       (apply (order_neutral c st _ k O); try reflexivity; [pipe_tac k | cursub_tac k]).
-    Show.
+    + rewrite <- Hcat. reflexivity.
+    + rewrite <- Hcat. cbn [concat]. rewrite <- app_assoc. reflexivity.
+  - (* WDisp *)
+    pose proof (o_cursub c st O k _ _ _ _ Hw) as Hsub.
+    assert (Hdrop : Order c (advance k n rest (drop_items cur st))).
+    { unfold advance. destruct rest;
+        (apply (order_handled c st _ k cur (concat rest ++ mbox st k) (now st) O);
+         try reflexivity; [unfold pipe; rewrite Hw; cbn [wk_items]; rewrite <- ?app_assoc; reflexivity
+                          | pipe_tac k | sp; apply osub_disps; apply (o_sub c st O) | cursub_tac k]).
+      - cbn [concat app]. reflexivity.
+      - cbn [concat]. rewrite <- app_assoc. reflexivity. }
+    assert (Hdef : Order c match cur with
+                          | [] => advance k n rest st
+                          | x :: cur' => set_wpc k (WDisp n cur' curall rest)
+                              (drop_items [x] (if sclosed st (t_s x) then st
+                                 else set_wire (wire st ++ [HWire (t_s x) 0 (t_q x) (now st)]) st))
+                          end).
+    { destruct cur as [|x cur'].
+      - unfold advance. destruct rest;
+          (apply (order_neutral c st _ k O); try reflexivity; [pipe_tac k | cursub_tac k]).
+      - destruct (sclosed st (t_s x));
+          (apply (order_handled c st _ k [x] (cur' ++ concat rest ++ mbox st k) (now st) O);
+           try reflexivity; [unfold pipe; rewrite Hw; cbn [wk_items app]; rewrite <- ?app_assoc; reflexivity
+                            | pipe_tac k | sp | cursub_tac k]).
+        + apply osub_disps. apply (o_sub c st O).
+        + intros a Ha. apply Hsub. right. exact Ha.
+        + cbn [map]. apply osub_ack. apply (o_sub c st O).
+        + intros a Ha. apply Hsub. right. exact Ha. }
+    destruct ch; try exact Hdef.
+    + (* CFail *) apply (order_neutral c st _ k O); try reflexivity; [pipe_tac k | cursub_tac k].
+    + (* CPanic *) exact Hdrop.
+  - (* WErr *)
+    destruct toclose as [|s0 tc].
+    + unfold advance. destruct rest;
+        (apply (order_handled c st _ k cur (concat rest ++ mbox st k) (now st) O);
+         try reflexivity; [unfold pipe; rewrite Hw; cbn [wk_items]; rewrite <- ?app_assoc; reflexivity
+                          | pipe_tac k | sp; apply osub_disps; apply (o_sub c st O) | cursub_tac k]).
+      * cbn [concat app]. reflexivity.
+      * cbn [concat]. rewrite <- app_assoc. reflexivity.
+    + apply (order_neutral c st _ k O); try reflexivity; [pipe_tac k | cursub_tac k].
+  - (* WComplete *)
+    destruct (r =? 0); (apply (order_neutral c st _ k O); try reflexivity; [pipe_tac k | cursub_tac k]).
+  - (* WFinish *)
+    destruct (mbox st k) eqn:Hm; [|destruct (mclosed st)];
+      (apply (order_neutral c st _ k O); try reflexivity; [pipe_tac k | cursub_tac k]).
+Qed.
